@@ -531,6 +531,13 @@ func (fr *Frame) intrinsic(st *State, callee *ssa.Function, key string, args []V
 	if strings.HasPrefix(name, "vsliceeq_") {
 		name = "vsliceeq"
 	}
+	if strings.HasPrefix(name, "vsamefields_") && len(args) == 2 {
+		// field-by-field equality of two struct objects, fields enumerated from go/types at verification time
+		if pt, ok := args[0].T.Underlying().(*types.Pointer); ok {
+			fr.sameFieldsObligations(st, pt.Elem(), args[0].C[0], args[1].C[0], "", pos)
+			return []Val{{T: types.Typ[types.Bool], C: []string{"true"}}}, true
+		}
+	}
 	top := fr.top()
 	switch name {
 	case "vassert":
@@ -1172,5 +1179,41 @@ func (fr *Frame) streamEqObligations(st *State, a, b Val, pos token.Pos) {
 		sa, sb := "(select "+get(a, "ts", sarr)+" "+ks+")", "(select "+get(b, "ts", sarr)+" "+ks+")"
 		eqs = append(eqs, "(or (= "+sa+" "+sb+") "+vc.strEqExt(sa, sb)+")")
 		vc.oblige("assert", top.oblFn, fr.oblName("stream-eq-tok"), fr.curCond, "(=> "+vc.ilt(ks, n1)+" "+andAll(eqs...)+")", fr.pos(pos), fmt.Sprintf("re-encoded stream agrees at token %d", k))
+	}
+}
+
+// sameFieldsObligations: one obligation per field (recursively through embedded structs by value).
+func (fr *Frame) sameFieldsObligations(st *State, S types.Type, a, b string, prefix string, pos token.Pos) {
+	vc := fr.vc
+	top := fr.top()
+	for _, f := range structFields(S) {
+		name := prefix + f.Name()
+		if _, isStruct := f.Type().Underlying().(*types.Struct); isStruct {
+			fr.sameFieldsObligations(st, f.Type(), vc.emb(S, f.Name(), a), vc.emb(S, f.Name(), b), name+".", pos)
+			continue
+		}
+		if isAggregate(f.Type()) {
+			vc.warn("vsamefields: array field %s not compared", name)
+			continue
+		}
+		va := vc.readKey(st, fieldKey(S, f.Name()), f.Type(), a)
+		vb := vc.readKey(st, fieldKey(S, f.Name()), f.Type(), b)
+		var goal string
+		switch u := f.Type().Underlying().(type) {
+		case *types.Slice:
+			// same nil-ness, same length, same elements
+			goal = "(and (= (= " + va.C[0] + " 0) (= " + vb.C[0] + " 0)) " + fr.sliceEqExt(st, va, vb) + ")"
+			_ = u
+		case *types.Map, *types.Chan, *types.Signature:
+			vc.assumptions["vsamefields: map/chan/func field "+name+" compared for nil-ness only"] = true
+			goal = "(= (= " + va.C[0] + " 0) (= " + vb.C[0] + " 0))"
+		default:
+			var eqs []string
+			for i := range va.C {
+				eqs = append(eqs, "(= "+va.C[i]+" "+vb.C[i]+")")
+			}
+			goal = andAll(eqs...)
+		}
+		vc.oblige("assert", top.oblFn, fr.oblName("same:"+name), fr.curCond, goal, fr.pos(pos), "field "+name+" has the same value in both objects")
 	}
 }
